@@ -182,7 +182,7 @@ pub fn gen_c09_case(g: &mut G) -> Value {
     let unsat = g.chance(1, 5);
     // (in unsatisfiable cases Base is a closed object over `a`, so that a reference to it can play the closed sibling)
     let base = if unsat { json!({"type": "object", "properties": {"a": {"type": "integer"}}, "required": ["a"], "additionalProperties": false}) } else { object_member(g) };
-    let scalar = !unsat && g.chance(1, 10);
+    let scalar = !unsat && g.chance(1, 5);
     let members: Vec<Value> = if unsat {
         unsat_members(g)
     } else if scalar {
@@ -192,7 +192,7 @@ pub fn gen_c09_case(g: &mut G) -> Value {
             1 => json!([10, 20, "auto"]),
             _ => json!(["a", 7, 2.5, true]),
         };
-        let ty = *g.pick(&["number", "integer", "string"]);
+        let ty = *g.pick(&["number", "number", "integer", "string"]);
         let mut v = if g.chance(1, 3) {
             // a generic and a specific address format: the conjunction is the specific one
             let specific = *g.pick(&["ipv4", "ipv6"]);
@@ -278,7 +278,7 @@ impl Property for C09 {
         ]
     }
     fn generate(&self, tier: Tier, seed: u64) -> Vec<Value> {
-        gen::draw(seed, "C09", tier.pick(150, 5000), gen_c09_case)
+        gen::draw(seed, "C09", tier.pick(300, 6000), gen_c09_case)
     }
     fn prepare(&self, c: &Value) -> Unit {
         let (Some(members), Some(cands)) = (c["members"].as_array(), c["candidates"].as_array()) else { return invalid_unit("not a C09 case".into()) };
